@@ -50,7 +50,7 @@ func c14Push(s *vDev, g *protocoltypes.Group, env []byte) []byte {
 
 func TestVerif_C14_Sessions(t *testing.T) {
 	acct := vacct.Get("C14")
-	vacct.RapidCheck(t, vacct.N(250, 20000), func(rt *rapid.T) {
+	vacct.RapidCheck(t, vacct.N(250, 150000), func(rt *rapid.T) {
 		small := rapid.IntRange(0, 3).Draw(rt, "small") != 0
 		W, R := 100, 100
 		if small {
@@ -130,6 +130,7 @@ func TestVerif_C14_Sessions(t *testing.T) {
 				seenLog[key] = true
 			}
 		}
+		var handedOut [][2][]byte // cleartexts handed to the caller, with a copy taken at that moment
 		pushOpen := func(s *c14Sender, si, idx int) {
 			k := s.model.c + uint64(idx) + 1
 			key := fmt.Sprintf("%d/%d", si, k)
@@ -147,6 +148,7 @@ func TestVerif_C14_Sessions(t *testing.T) {
 				if !bytes.Equal(clear, vWrap(s.pay[idx])) && !bytes.Equal(clear, s.pay[idx]) {
 					fail("push-open-wrong-payload", "push payload of message %d opened to %q", k, clear)
 				}
+				handedOut = append(handedOut, [2][]byte{clear, append([]byte(nil), clear...)})
 				if !bytes.Equal(oos.DevicePk, vRaw(s.dev.md(s.g).Device())) || oos.Counter != k {
 					fail("push-open-wrong-attribution", "push payload of message %d attributed to device %x counter %d", k, oos.DevicePk, oos.Counter)
 				}
@@ -269,6 +271,11 @@ func TestVerif_C14_Sessions(t *testing.T) {
 					fail("harness-model-gap", "in-order completion not openable at %d", k)
 				}
 				logOpen(s, si, idx)
+			}
+		}
+		for i, h := range handedOut {
+			if !bytes.Equal(h[0], h[1]) {
+				fail("delivered-payload-changed", "the cleartext handed out by push open #%d of the session changed after later opens (%d bytes)", i, len(h[1]))
 			}
 		}
 		both := 0
